@@ -245,4 +245,6 @@ def harnesses(tier):
         ("analyzer", h_analyzer, an),
         ("quick-sampler", h_quick, qs, dict(check_timeout_ms=30000)),
         ("simulator-squares", h_simulator_squares, sq),
+        ("simulator-squares.raw", h_simulator_squares, sq[::2], dict(raw=True)),
+        ("analyzer.raw", h_analyzer, an[::25], dict(raw=True)),
     ]
